@@ -648,6 +648,7 @@ enum { S_NONE, S_NEW, S_PARKED, S_FREE, S_BLOCKED, S_RUN, S_DONE };
 #define SW_PRIMARY 9
 typedef struct {
     int id, inc, plain; /* plain: suspended by ABT_self_suspend (remote resume allowed) */
+    int home;           /* 0: the primary stream's pool, 1: a second pool that no scheduler serves */
     volatile int stt;
     ABT_thread th;
     volatile int claim;
@@ -655,8 +656,9 @@ typedef struct {
 static sw_t SW[SW_PRIMARY + 1];
 static int g_nsw, g_sw_budget, g_sw_creates;
 static volatile int g_exp_of, g_sw_over;
-static ABT_pool g_p0;
+static ABT_pool g_p0, g_q;
 static void sw_entry(void *arg);
+#define SW_POOL(h) ((h) ? g_q : g_p0)
 
 static sw_t *sw_lookup(ABT_thread t)
 {
@@ -701,6 +703,7 @@ static void sw_new_unit(int by, int id, int to)
     n->inc = 0;
     n->claim = 0;
     n->plain = 0;
+    n->home = rnd(3) == 0;
     ABT_thread_attr attr;
     CHK(ABT_thread_attr_create(&attr));
     CHK(ABT_thread_attr_set_stacksize(attr, 65536));
@@ -709,12 +712,12 @@ static void sw_new_unit(int by, int id, int to)
         me->stt = S_PARKED;
         n->stt = S_RUN;
         g_exp_of = by;
-        EV("\"e\":\"Prim\",\"u\":%d,\"op\":\"create_to\",\"t\":%d,\"arg\":%d", by, id, id * 10);
-        CHK(ABT_thread_create_to(g_p0, sw_entry, n, attr, &n->th));
+        EV("\"e\":\"Prim\",\"u\":%d,\"op\":\"create_to\",\"t\":%d,\"arg\":%d,\"pool\":%d", by, id, id * 10, n->home);
+        CHK(ABT_thread_create_to(SW_POOL(n->home), sw_entry, n, attr, &n->th));
     } else {
         n->stt = S_NEW;
-        EV("\"e\":\"Create\",\"by\":%d,\"u\":%d,\"kind\":0,\"named\":1,\"arg\":%d,\"pool\":0", by, id, id * 10);
-        CHK(ABT_thread_create(g_p0, sw_entry, n, attr, &n->th));
+        EV("\"e\":\"Create\",\"by\":%d,\"u\":%d,\"kind\":0,\"named\":1,\"arg\":%d,\"pool\":%d", by, id, id * 10, n->home);
+        CHK(ABT_thread_create(SW_POOL(n->home), sw_entry, n, attr, &n->th));
         EV("\"e\":\"CreateRet\",\"by\":%d,\"u\":%d", by, id);
     }
     CHK(ABT_thread_attr_free(&attr));
@@ -731,7 +734,7 @@ static int sw_step(sw_t *me)
         if (op <= 2) {
             /* take a ready unit out of the pool and switch to it */
             ABT_thread t = ABT_THREAD_NULL;
-            CHK(ABT_pool_pop_thread(g_p0, &t));
+            CHK(ABT_pool_pop_thread(rnd(3) == 0 ? g_q : g_p0, &t));
             if (t == ABT_THREAD_NULL)
                 continue;
             sw_t *T = sw_lookup(t);
@@ -818,8 +821,8 @@ static int sw_step(sw_t *me)
             D->claim = 0;
             me->stt = S_PARKED;
             g_exp_of = me->id;
-            EV("\"e\":\"Prim\",\"u\":%d,\"op\":\"revive_to\",\"t\":%d,\"arg\":%d", me->id, d, d * 10 + D->inc);
-            CHK(ABT_thread_revive_to(g_p0, sw_entry, D, &D->th));
+            EV("\"e\":\"Prim\",\"u\":%d,\"op\":\"revive_to\",\"t\":%d,\"arg\":%d,\"pool\":%d", me->id, d, d * 10 + D->inc, D->home);
+            CHK(ABT_thread_revive_to(SW_POOL(D->home), sw_entry, D, &D->th));
             sw_run_event(me);
             return 1;
         } else if (op == 8) {
@@ -890,6 +893,7 @@ static void scn_switch(void)
 {
     memset(SW, 0, sizeof SW);
     g_p0 = g_pool[0][0];
+    CHK(ABT_pool_create_basic(ABT_POOL_FIFO, ABT_POOL_ACCESS_MPMC, ABT_FALSE, &g_q));
     g_exp_of = -1;
     g_sw_over = 0;
     g_sw_budget = 6 + rnd(14);
@@ -923,6 +927,22 @@ static void scn_switch(void)
             CHK(ABT_thread_resume(SW[b].th));
             continue;
         }
+        {
+            /* units parked in the pool without a scheduler only run when somebody switches to them */
+            ABT_thread t = ABT_THREAD_NULL;
+            CHK(ABT_pool_pop_thread(g_q, &t));
+            if (t != ABT_THREAD_NULL) {
+                sw_t *T = sw_lookup(t);
+                EV("\"e\":\"Pop\",\"by\":%d,\"t\":%d", SW_PRIMARY, T->id);
+                T->stt = S_RUN;
+                me->stt = S_PARKED;
+                g_exp_of = SW_PRIMARY;
+                EV("\"e\":\"Prim\",\"u\":%d,\"op\":\"yield_to\",\"t\":%d,\"arg\":0", SW_PRIMARY, T->id);
+                CHK(ABT_self_yield_to(T->th));
+                sw_run_event(me);
+                continue;
+            }
+        }
         me->stt = S_PARKED;
         EV("\"e\":\"Prim\",\"u\":%d,\"op\":\"yield\",\"t\":0,\"arg\":0", SW_PRIMARY);
         CHK(ABT_thread_yield());
@@ -938,6 +958,7 @@ static void scn_switch(void)
             EV("\"e\":\"FreeRet\",\"by\":%d,\"u\":%d,\"null\":%d,\"tok\":%d", SW_PRIMARY, i, SW[i].th == ABT_THREAD_NULL,
                i * 10 + SW[i].inc);
         }
+    CHK(ABT_pool_free(&g_q));
     EV("\"e\":\"PrimaryDone\",\"u\":%d", SW_PRIMARY);
     sample_blocked("quiet");
 }
@@ -1172,6 +1193,128 @@ static void scn_cancelnew(void)
     CHK(ABT_pool_free(&hold));
 }
 
+/* ======================================================================= cancel corner cases (C12)
+ * (a) the request reaches a running unit after its last scheduling point: the
+ *     unit finishes normally; after join + revive the new incarnation must run.
+ * (b) the request is pending when the unit's next scheduling point is a
+ *     blocking join on a live unit: the join target must still terminate and
+ *     be joinable, the cancelled unit terminates when it is scheduled again. */
+static volatile int g_cm_ready, g_cm_cancelled, g_cm_release;
+static ABT_thread g_cm_j, g_cm_t;
+static void cm_late(void *a)
+{
+    uarg_t *ua = (uarg_t *)a;
+    EV("\"e\":\"Start\",\"u\":1,\"arg\":%d,\"es\":0,\"n\":1", 10 + ua->inc);
+    if (ua->inc == 0) {
+        g_cm_ready = 1;
+        while (!g_cm_cancelled)
+            abtv_idle_hint(); /* no scheduling point of the runtime */
+    } else if (U[1].kind == U_ULT) {
+        EV("\"e\":\"Yield\",\"u\":1");
+        CHK(ABT_thread_yield());
+        EV("\"e\":\"Back\",\"u\":1");
+    }
+    U[1].token = 10 + ua->inc;
+    EV("\"e\":\"Finish\",\"u\":1");
+}
+static void cm_target(void *a)
+{
+    (void)a;
+    EV("\"e\":\"Start\",\"u\":2,\"arg\":20,\"es\":0,\"n\":1");
+    while (!g_cm_release) {
+        EV("\"e\":\"Yield\",\"u\":2");
+        CHK(ABT_thread_yield());
+        EV("\"e\":\"Back\",\"u\":2");
+        abtv_idle_hint();
+    }
+    U[2].token = 20;
+    EV("\"e\":\"Finish\",\"u\":2");
+}
+static void cm_joiner(void *a)
+{
+    (void)a;
+    EV("\"e\":\"Start\",\"u\":1,\"arg\":10,\"es\":0,\"n\":1");
+    g_cm_ready = 1;
+    while (!g_cm_cancelled)
+        abtv_idle_hint();
+    EV("\"e\":\"JoinCall\",\"by\":1,\"u\":2");
+    CHK(ABT_thread_join(g_cm_t));
+    EV("\"e\":\"JoinRet\",\"by\":1,\"u\":2,\"st\":%d,\"tok\":%d", state_of(g_cm_t), U[2].token);
+    U[1].token = 10;
+    EV("\"e\":\"Finish\",\"u\":1");
+}
+static void scn_cancelmix(void)
+{
+    memset(U, 0, sizeof U);
+    g_cm_ready = g_cm_cancelled = g_cm_release = 0;
+    int sub = rnd(2);
+    EV("\"e\":\"Exec\",\"nu\":2,\"nes\":%d,\"cfg\":%d,\"ext\":0", g_nes, g_cfg);
+    UA[1][0].u = &U[1];
+    UA[1][0].inc = 0;
+    UA[1][1].u = &U[1];
+    UA[1][1].inc = 1;
+    int p1 = g_nes > 1 ? 1 + rnd(g_nes - 1) : 0; /* a running unit can only be observed from another stream */
+    if (g_nes < 2)
+        return;
+    if (sub == 0) {
+        U[1].kind = rnd(3) == 0 ? U_TASK : U_ULT;
+        EV("\"e\":\"Create\",\"by\":0,\"u\":1,\"kind\":%d,\"named\":1,\"arg\":10,\"pool\":%d", U[1].kind, p1);
+        if (U[1].kind == U_ULT)
+            CHK(ABT_thread_create(g_pool[p1][0], cm_late, &UA[1][0], ABT_THREAD_ATTR_NULL, &g_cm_j));
+        else
+            CHK(ABT_task_create(g_pool[p1][0], cm_late, &UA[1][0], &g_cm_j));
+        EV("\"e\":\"CreateRet\",\"by\":0,\"u\":1");
+        while (!g_cm_ready)
+            pause_any(0);
+        EV("\"e\":\"Cancel\",\"by\":0,\"u\":1");
+        CHK(ABT_thread_cancel(g_cm_j));
+        EV("\"e\":\"CancelRet\",\"by\":0,\"u\":1");
+        g_cm_cancelled = 1;
+        EV("\"e\":\"JoinCall\",\"by\":0,\"u\":1");
+        CHK(ABT_thread_join(g_cm_j));
+        EV("\"e\":\"JoinRet\",\"by\":0,\"u\":1,\"st\":%d,\"tok\":%d", state_of(g_cm_j), U[1].token);
+        U[1].token = 0;
+        EV("\"e\":\"Revive\",\"by\":0,\"u\":1,\"arg\":11,\"pool\":%d", p1);
+        if (U[1].kind == U_ULT)
+            CHK(ABT_thread_revive(g_pool[p1][0], cm_late, &UA[1][1], &g_cm_j));
+        else
+            CHK(ABT_task_revive(g_pool[p1][0], cm_late, &UA[1][1], &g_cm_j));
+        EV("\"e\":\"ReviveRet\",\"by\":0,\"u\":1");
+        EV("\"e\":\"FreeCall\",\"by\":0,\"u\":1");
+        CHK(ABT_thread_free(&g_cm_j));
+        EV("\"e\":\"FreeRet\",\"by\":0,\"u\":1,\"null\":1,\"tok\":%d", U[1].token);
+    } else {
+        int p2 = rnd(g_nes);
+        EV("\"e\":\"Create\",\"by\":0,\"u\":2,\"kind\":0,\"named\":1,\"arg\":20,\"pool\":%d", p2);
+        CHK(ABT_thread_create(g_pool[p2][0], cm_target, NULL, ABT_THREAD_ATTR_NULL, &g_cm_t));
+        EV("\"e\":\"CreateRet\",\"by\":0,\"u\":2");
+        EV("\"e\":\"Create\",\"by\":0,\"u\":1,\"kind\":0,\"named\":1,\"arg\":10,\"pool\":%d", p1);
+        CHK(ABT_thread_create(g_pool[p1][0], cm_joiner, NULL, ABT_THREAD_ATTR_NULL, &g_cm_j));
+        EV("\"e\":\"CreateRet\",\"by\":0,\"u\":1");
+        while (!g_cm_ready)
+            pause_any(0);
+        EV("\"e\":\"Cancel\",\"by\":0,\"u\":1");
+        CHK(ABT_thread_cancel(g_cm_j));
+        EV("\"e\":\"CancelRet\",\"by\":0,\"u\":1");
+        g_cm_cancelled = 1;
+        /* let the joiner reach its join, then let the target finish */
+        for (int d = 10 + rnd(60); d > 0; d--)
+            pause_any(0);
+        g_cm_release = 1;
+        /* the target must terminate and be joinable although its (cancelled) joiner
+         * never completes its join; it is freed only after the joiner is gone */
+        EV("\"e\":\"JoinCall\",\"by\":0,\"u\":2");
+        CHK(ABT_thread_join(g_cm_t));
+        EV("\"e\":\"JoinRet\",\"by\":0,\"u\":2,\"st\":%d,\"tok\":%d", state_of(g_cm_t), U[2].token);
+        EV("\"e\":\"FreeCall\",\"by\":0,\"u\":1");
+        CHK(ABT_thread_free(&g_cm_j));
+        EV("\"e\":\"FreeRet\",\"by\":0,\"u\":1,\"null\":1,\"tok\":%d", U[1].token);
+        EV("\"e\":\"FreeCall\",\"by\":0,\"u\":2");
+        CHK(ABT_thread_free(&g_cm_t));
+        EV("\"e\":\"FreeRet\",\"by\":0,\"u\":2,\"null\":1,\"tok\":%d", U[2].token);
+    }
+}
+
 /* ---------------------------------------------------------------- configuration */
 static void setup_streams(void)
 {
@@ -1343,13 +1486,15 @@ static void scenario(const char *name, uint64_t seed)
     CHK(ABT_init(0, NULL));
     setup_streams();
     if (!strcmp(name, "migrate") || !strcmp(name, "migrace") || !strcmp(name, "switch") || !strcmp(name, "xjoin") ||
-        !strcmp(name, "cancelnew")) {
+        !strcmp(name, "cancelnew") || !strcmp(name, "cancelmix")) {
         if (!strcmp(name, "migrace"))
             scn_migrace();
         else if (!strcmp(name, "xjoin"))
             scn_xjoin();
         else if (!strcmp(name, "cancelnew"))
             scn_cancelnew();
+        else if (!strcmp(name, "cancelmix"))
+            scn_cancelmix();
         else if (!strcmp(name, "switch"))
             scn_switch();
         else
